@@ -619,7 +619,9 @@ func search(h *hz.H, md protoreflect.MessageDescriptor, maxDepth int, st *search
 		sort.Slice(next, func(a, b int) bool { return fmt.Sprint(next[a]) < fmt.Sprint(next[b]) })
 		frontier = next
 		if len(frontier) == 0 {
-			return depth
+			// no unseen state is reachable any more: the whole reachable state space (for this alphabet) has been explored
+			h.Counter("types_whose_reachable_state_space_was_exhausted_before_the_depth_bound", 1)
+			return maxDepth
 		}
 	}
 	return maxDepth
